@@ -114,7 +114,10 @@ def obligations(tier):
             return dict(records=pr.records, decisions=decisions, last=I["e1"])
         def ls_post(S, I, r):
             if S.name != "sym":
-                return []
+                e, snap = r["records"][-1]
+                jumped = "new_factors" in snap and all(a is b for a, b in zip(snap["factors"], snap["new_factors"]))
+                better = float(snap["new_rec_error"]) / float(snap["new_norm_tensor"]) < float(r["last"])
+                return [("the jumped iterate is installed iff its relative error is smaller than the last reported error", bool(jumped), bool(better))]
             e, snap = r["records"][-1]
             jumped = snap["factors"] is not None and "new_factors" in snap and all(a is b for a, b in zip(snap["factors"], snap["new_factors"]))
             # the first data decision of the body on this path is `new_rec_error / new_norm_tensor < rec_errors[-1]`
@@ -163,10 +166,11 @@ def obligations(tier):
             add("decomposition._nn_cp:non_negative_parafac_hals", f"N={N},{opt}", cp_setup(N), lambda I, kwargs=kwargs: run_hals(I, kwargs), hals_post,
                 dict(order=N, options=opt), "NNLS / solve arguments ≡ block problem")
     # ====================================================================== HOOI: matrix handed to svd_interface
-    def tk_setup(N):
+    def tk_setup(N, dtype="float64"):
         def setup(S):
             n, r = dims(N), dims(N, "r")
-            return dict(_S=S, X=S.input("X", n), core=S.input("G", r), fs=[S.input(f"U{k}", [n[k], r[k]]) for k in range(N)], r=r, e1=S.input("e_prev1", []), e2=S.input("e_prev2", []))
+            return dict(_S=S, X=S.input("X", n, dtype), core=S.input("G", r, dtype), fs=[S.input(f"U{k}", [n[k], r[k]], dtype) for k in range(N)], r=r,
+                        e1=S.input("e_prev1", []), e2=S.input("e_prev2", []))
         return setup
     def run_hooi(I):
         S = I["_S"]
@@ -188,8 +192,8 @@ def obligations(tier):
             st = cut.prefix(I["X"], rank)
             st["factors"] = list(st["factors"])
             st["rec_errors"] = [I["e2"], I["e1"]]
-            cut.body(st, 2)
-        return dict(calls=rec, rank=rank)
+            kind, st2 = cut.body(st, 2)
+        return dict(calls=rec, rank=rank, core=st2["core"], factors=list(st2["factors"]), modes=list(st2["modes"]))
     def hooi_post(S, I, r):
         pairs = []
         for c in r["calls"]:
@@ -200,6 +204,7 @@ def obligations(tier):
             pairs.append((f"mode {mode}: SVD input ≡ unfold(X ×_(q≠m) U_qᴴ, m)", c["matrix"], S.group(proj, [[mode], [k for k in range(N_) if k != mode]])))
             pairs.append((f"mode {mode}: number of singular vectors ≡ rank[m]", c["n_eigenvecs"], r["rank"][idx]))
         pairs.append(("one truncated SVD per mode", len(r["calls"]), len(r["rank"])))
+        pairs.append(("after the sweep the core is the projection X ×_k U_kᴴ onto the new factors", r["core"], SP.multi_mode_dot(S, I["X"], r["factors"], r["modes"], transpose=True)))
         return pairs
     def hooi_pre(N):
         def pre(I):
@@ -211,7 +216,9 @@ def obligations(tier):
             return out
         return pre
     for N in range(2, maxN + 1):
-        add("decomposition._tucker:partial_tucker", f"N={N}", tk_setup(N), run_hooi, hooi_post, dict(order=N), "SVD input ≡ partially projected unfolding", assumptions=hooi_pre(N))
+        add("decomposition._tucker:partial_tucker", f"N={N}", tk_setup(N), run_hooi, hooi_post, dict(order=N), "SVD input ≡ partially projected unfolding ∧ core ≡ projection", assumptions=hooi_pre(N))
+        add("decomposition._tucker:partial_tucker", f"N={N},complex data", tk_setup(N, "complex128"), run_hooi, hooi_post, dict(order=N, data="complex"),
+            "SVD input ≡ partially projected unfolding ∧ core ≡ projection", assumptions=hooi_pre(N))
     # ====================================================================== TR-ALS: design matrix / target / normal equations
     def tr_setup(N):
         def setup(S):
@@ -294,17 +301,14 @@ def obligations(tier):
         add("decomposition._parafac2:_compute_projections", f"slices={nI}", p2_setup(nI), run_proj, proj_post, dict(n_slices=nI), "Procrustes input and polar factor per slice",
             assumptions=lambda I: [R <= atom("K")] + [R <= atom(f"J{i}") for i in range(len(I["Xs"]))])
     # ====================================================================== ridge ALS of the regressors
-    def reg_setup(N, vec=False):
+    def reg_setup(N, ny=0):
         def setup(S):
             ns_ = atom("ns")
             n = dims(N)
-            d = dict(_S=S, X=S.input("X", [ns_] + n), W=[S.input(f"W{k}", [n[k], R]) for k in range(N)], ns=ns_)
-            if vec:
-                m = atom("m")
-                d["y"] = S.input("y", [ns_, m])
-                d["W"].append(S.input("Wy", [m, R]))
-            else:
-                d["y"] = S.input("y", [ns_])
+            m = dims(ny, "m")
+            d = dict(_S=S, X=S.input("X", [ns_] + n), W=[S.input(f"W{k}", [n[k], R]) for k in range(N)], ns=ns_, ny=ny)
+            d["y"] = S.input("y", [ns_] + m)
+            d["W"] += [S.input(f"Wy{o}", [m[o], R]) for o in range(ny)]
             return d
         return setup
     def run_cpreg(I):
@@ -320,35 +324,34 @@ def obligations(tier):
     def cpreg_post(S, I, calls):
         pairs = []
         NX = len(S.shape(I["X"])) - 1
-        vec = len(S.shape(I["y"])) == 2
+        ny = I["ny"]
         lx = SP.letters(NX, 1)
+        ly = SP.letters(ny, 1 + NX)
         for c in calls:
             i, W = c["i"], c["W"]
             if i < NX:
-                subs = ["a" + lx] + [lx[k] + "R" for k in range(NX) if k != i]
-                args = [W[k] for k in range(NX) if k != i]
-                if vec:
-                    subs.append("oR")
-                    args.append(W[NX])
-                    Phi = S.group(S.einsum(",".join(subs) + "->ao" + lx[i] + "R", I["X"], *args), [[0, 1], [2, 3]])
-                    rhs = S.einsum("zp,z->p", Phi, S.group(I["y"], [[0, 1]]))
-                else:
-                    Phi = S.group(S.einsum(",".join(subs) + "->a" + lx[i] + "R", I["X"], *args), [[0], [1, 2]])
-                    rhs = S.einsum("ap,a->p", Phi, I["y"])
+                subs = ["a" + lx] + [lx[k] + "R" for k in range(NX) if k != i] + [ly[o] + "R" for o in range(ny)]
+                args = [W[k] for k in range(NX) if k != i] + [W[NX + o] for o in range(ny)]
+                Phi = S.group(S.einsum(",".join(subs) + "->a" + ly + lx[i] + "R", I["X"], *args), [list(range(1 + ny)), [1 + ny, 2 + ny]])
+                rhs = S.einsum("zp,z->p", Phi, S.group(I["y"], [list(range(1 + ny))]))
             else:
-                subs = ["a" + lx] + [lx[k] + "R" for k in range(NX)]
-                Phi = S.einsum(",".join(subs) + "->aR", I["X"], *[W[k] for k in range(NX)])
-                rhs = S.einsum("ap,ao->po", Phi, I["y"])
+                j = i - NX
+                oth = [o for o in range(ny) if o != j]
+                subs = ["a" + lx] + [lx[k] + "R" for k in range(NX)] + [ly[o] + "R" for o in oth]
+                args = [W[k] for k in range(NX)] + [W[NX + o] for o in oth]
+                Phi = S.group(S.einsum(",".join(subs) + "->a" + "".join(ly[o] for o in oth) + "R", I["X"], *args), [list(range(1 + len(oth))), [1 + len(oth)]])
+                ym = S.group(I["y"], [[0] + [1 + o for o in oth], [1 + j]])
+                rhs = S.einsum("zp,zo->po", Phi, ym)
             gram = S.einsum("ap,aq->pq", Phi, Phi) + S.eye(S.shape(Phi)[1]) * 0.7
             pairs.append((f"factor {i}: ΦᵀΦ + λI with Φ the design matrix of the ridge block problem", c["A"], gram))
-            pairs.append((f"factor {i}: right-hand side ≡ Φᵀy", c["B"], rhs))
+            pairs.append((f"factor {i}: right-hand side ≡ Φᵀy (target rows aligned with the design matrix)", c["B"], rhs))
         pairs.append(("one ridge solve per factor", len(calls), len(I["W"])))
         return pairs
     for N in range(2, maxN + 1):
-        add("regression.cp_regression:CPRegressor.fit", f"X-order={N + 1},scalar target", reg_setup(N), run_cpreg, cpreg_post, dict(x_order=N + 1, target="scalar"),
-            "solve sites ≡ ridge normal equations of the block problem")
-        if N <= 3:
-            add("regression.cp_regression:CPRegressor.fit", f"X-order={N + 1},vector target", reg_setup(N, True), run_cpreg, cpreg_post, dict(x_order=N + 1, target="vector"),
+        for ny in (0, 1, 2, 3):
+            if ny >= 2 and N > 2:
+                continue
+            add("regression.cp_regression:CPRegressor.fit", f"X-order={N + 1},target-modes={ny}", reg_setup(N, ny), run_cpreg, cpreg_post, dict(x_order=N + 1, target_modes=ny),
                 "solve sites ≡ ridge normal equations of the block problem")
     def tkreg_setup(N):
         def setup(S):
